@@ -140,12 +140,14 @@ class Public_key(object):
         # for curve parameters with base point with cofactor 1, all points
         # that are on the curve are scalar multiples of the base point, so
         # verifying that is not necessary. See Section 3.2.2.1 of SEC 1 v2
-        if (
-            verify
-            and self.curve.cofactor() != 1
-            and not n * point == ellipticcurve.INFINITY
-        ):
-            raise InvalidPointError("Generator point order is bad.")
+        if verify and self.curve.cofactor() != 1:
+            # the Jacobi representation reads every point with y == 0 as the
+            # point at infinity, so a point of order 2 (that n * point yields
+            # for points outside of the prime order subgroup) would pass;
+            # do the subgroup check in the affine representation
+            affine = ellipticcurve.Point(self.curve, point.x(), point.y())
+            if not n * affine == ellipticcurve.INFINITY:
+                raise InvalidPointError("Generator point order is bad.")
 
     def __eq__(self, other):
         """Return True if the keys are identical, False otherwise.
